@@ -187,6 +187,18 @@ PROPS["C20"] = dict(
     level_note="trusted: the record bookkeeping in harness/t_ino.c, interposition of read() at the libc boundary, the running kernel's inotify; ASan/UBSan.",
     technique="property-based testing: seeded generated file-system operation bursts and handler scripts; differential oracle against the raw kernel event stream; choice-sequence shrinking",
     design_ref="DESIGN.md section 3 (C20)")
+POPEN_LABELS = ["child_died_between_two_signals", "child_ignored_term_until_kill", "child_exited_before_close", "close_while_child_alive", "child_dies_on_first_term",
+                "child_stops_and_continues", "several_requests", "real_exec_child", "type_r", "type_w", "method_epoll_timerfd", "method_epoll", "method_ppoll",
+                "method_poll", "child_exit_at_signal_timer_instant", "request_never_closed", "signal_to_zombie", "child_dies_on_nth_term"]
+PROPS["C19"] = dict(
+    level="exploration", labels=POPEN_LABELS, engine="popen",
+    campaigns=[("popen", [], 40000, 800000), ("popen", ["real=1"], 400, 4000)],
+    rule="cases = (a) 1-3 popen requests with VIRTUAL children (fork/wait4/kill interposed) under a virtual clock: child dies on the n-th SIGTERM (n=1..5), ignores SIGTERM, ends by itself at a generated instant (incl. exactly at / 1 ms around the 5 s signalling instants), stops and continues; close at once, at a generated instant before/at/after the child's end, or never; (b) a real exec'ed helper (type r and w) that reports the wiring of its standard streams and every signal over a side pipe, with a data round-trip through the returned descriptor; oracles: signals only after the close, first one at the close instant, then exactly 5 s apart, 5 x SIGTERM then SIGKILL, never to a pid whose termination was reaped; every closed request's child is brought down and reaped, no zombie and no live child when iv_main returns, iv_main does return; stdin/stdout/stderr wiring and data as documented; request struct freed at close (ASan); non-trivial = child died between two signals of the sequence, or ignored SIGTERM up to the SIGKILL, or a real child; distinct = hash(configuration + actions)",
+    assumptions=["virtual children: the child side of the fork (dup2/exec wiring) is covered only by the real-helper campaign", "real-helper campaign waits in real time (bounded) only to synchronise with the child; exhausting that budget would be reported as inconclusive"],
+    level_text="exploration of child behaviours x close timings x request types under virtual time, plus a real exec'ed helper for wiring and data",
+    level_note="trusted: virtual process layer and signalling bookkeeping in harness/t_popen.c, the helper program harness/popen_child.c, virtual kernel; ASan/UBSan.",
+    technique="property-based testing: seeded generated child behaviours and close timings under a virtual clock and virtual process layer; invariant over the kill history; choice-sequence shrinking",
+    design_ref="DESIGN.md section 3 (C19)")
 
 ENGINES = [
     dict(name="vfz", path="harness/vfz.c", serves_properties=["C01", "C02", "C03", "C04", "C06", "C07"],
@@ -204,6 +216,7 @@ ENGINES.append(dict(name="mt", path="harness/t_mt.c", serves_properties=["C08", 
 ENGINES.append(dict(name="sig", path="harness/t_sig.c", serves_properties=["C10"], kind_free_text="iv_signal scenarios on engine B with an obligation-model oracle"))
 ENGINES.append(dict(name="wait", path="harness/t_wait.c", serves_properties=["C11"], kind_free_text="iv_wait scenarios with virtual children (fork/wait4/kill interposed) on engine B"))
 ENGINES.append(dict(name="ino", path="harness/t_ino.c", serves_properties=["C20"], kind_free_text="iv_inotify on real inotify instances, reference = the stream read() returned to the library"))
+ENGINES.append(dict(name="popen", path="harness/t_popen.c", serves_properties=["C19"], kind_free_text="iv_popen with virtual children under virtual time, plus a real exec'ed helper"))
 NOT_APPLICABLE = {}
 
 for _pid, _txt in {
@@ -359,6 +372,8 @@ def run_check(prop, spec, tier, seed, scale, write_evidence=True):
         if n <= 0:
             continue
         exe = exes[target]
+        if target == "popen":
+            params = params + ["helper=" + os.path.join(os.path.dirname(exe), "popen_child")]
         summ, fails, samp, broken = vlib.run_batch(exe, seed * 1000 + ci, n, ["prop=" + prop] + params, outdir, label="c%d" % ci)
         if broken:
             sys.stderr.write("worker without summary: %r\n" % (broken[:2],))
